@@ -14,12 +14,12 @@ CHECKS = {
    note="Small scope: K keys, bounded deviations; canonical key = shape+max+beta read through an overlay-added hook; comparator is a total order."),
  "C02": dict(engine="E1+E2", ref="8/C02",
    technique="explicit-state BFS + deviation-bounded DFS on the real tree, exact integer depth oracle after every step",
-   text="Depth bound checked with exact big-integer arithmetic after every transition of the C01 state spaces and after every step of long adversarial histories with <=d deviations; New(n keys) height checked for every n up to the bound.",
+   text="Depth bound checked with exact big-integer arithmetic after every transition of the C01 state spaces, after every step of long adversarial histories with <=d deviations, and after every step of deep histories (1100-1700 keys quick, 6000-24000 thorough) at the strict and the near-1000 balance factors where a wrong scapegoat choice or limit only shows late; New(n keys) height checked for every n up to the bound.",
    note="Small scope; P tracked by the harness as the property defines it; comparator-call counting through a wrapped comparator."),
  "C03": dict(engine="E1", ref="8/C03",
    technique="exhaustive enumeration of all BST shapes up to n nodes x all cursor states x all moves and all bounded move sequences on real cursors",
-   text="All binary-search-tree shapes up to the bound (built in the real tree with beta=1000) and every reachable cursor position/move pair plus all move sequences to a depth with clones are compared with an independent reference cursor.",
-   note="Shapes up to 7/9 nodes; reference cursor written from the documentation."),
+   text="All binary-search-tree shapes up to the bound (built in the real tree with beta=1000) and every reachable cursor position/move pair plus all move sequences to a depth with clones are compared with an independent reference cursor; Tree.Cursor/Next/Prev are also checked after every step of long operation histories (with removals and rebuilds) at several balance factors.",
+   note="Shapes up to 8/10 nodes (pairs) and 6/7 nodes (sequences of 4/5 moves); reference cursor written from the documentation."),
  "C04": dict(engine="E1", ref="8/C04",
    technique="explicit-state BFS over real omap.Map histories, sorted reference map oracle incl. all iterator walks and seeks per state",
    text="All Set/Delete/Clear histories over K keys to closure, natural and reversed comparator, every Seek target and full Next/Prev walk per state, zero Map and copy semantics.",
@@ -42,8 +42,8 @@ CHECKS = {
    note="Small scope (limits up to 5 unreduced in quick, key-symmetric reduction beyond). F2 excused only via counterfactual repair."),
  "C09": dict(engine="E3", ref="8/C09",
    technique="stateless model checking of the real Cache under a controlled cooperative scheduler: all schedules within a preemption bound, linearizability search, vector-clock race check at the Store seam, deadlock detection; separate free-running -race pass",
-   text="Every schedule (preemption-bounded) of every small workload over 3 keys is executed on the real Cache with its sync import redirected to a scheduler shim; each execution is checked for linearizability against the LRU reference incl. callbacks, Size<=limit, exactly-once eviction reports, seam races and deadlock.",
-   note="Scheduling points at mutex operations and Store-seam calls; plain field races left to the separate -race pass (sampling, complement)."),
+   text="Every schedule (preemption-bounded) of every small workload over 3 keys is executed on the real Cache with its sync import redirected to a scheduler shim; each execution is checked for linearizability against the LRU reference incl. callbacks, Size<=limit, exactly-once eviction reports, happens-before races at the Store seam, deadlock and panics.",
+   note="Scheduling points at mutex operations, operation calls and the eviction callback (thorough: also every Store-seam call); parallelism by worker processes; plain field races left to the separate free-running -race pass (sampling, complement)."),
  "C10": dict(engine="E1", ref="8/C10",
    technique="explicit-state BFS over real stack/mlink.Queue/mlink.List+cursors/ring structures with picture-derived reference models, hang watchdog",
    text="All operation histories within length bounds on the real containers; list cursors tracked by predecessor identity; stale cursors must panic 'invalid cursor' without changing the list; ring Join/Pop on every ordered pair of every cycle partition.",
@@ -74,7 +74,7 @@ CHECKS = {
    note="Reference tokenizer written from POSIX 2.2; validated against dash/bash when present."),
  "C17": dict(engine="E4", ref="8/C17",
    technique="bounded-exhaustive enumeration of slices, keep patterns and numeric arguments with naive reference functions and aliasing oracle",
-   text="All slices up to the length bound with spare capacity 0..2, all 2^n predicates, all k/n in and around the valid range; contents, order, identity/aliasing, behavioural capacity clipping and documented panics.",
+   text="All slices up to the length bound with spare capacity 0..2, all 2^n predicates, all k/n in and around the valid range; contents, order, identity/aliasing, capacity clipping (cap == len) and documented panics.",
    note="Distinct ints; lengths 0..8/10."),
  "C18": dict(engine="E1+E4", ref="8/C18",
    technique="exhaustive enumeration of all operand combinations over a 3-element universe incl. nil/empty + BFS over mutation histories",
@@ -83,7 +83,7 @@ CHECKS = {
  "C19": dict(engine="E2", ref="8/C19",
    technique="exhaustive enumeration of all behaviour-relevant random outcomes (choice tree over the RNG) on the real Counter with exact rational probability propagation",
    text="For every stream within bounds the real Counter is run under every partition class of the random source; exact regime, Len<=size, Count=Len*2^k monotone, and E[Count]==true distinct count exactly (rational arithmetic), plus per-step martingale conditions.",
-   note="RNG injected through an overlay-added constructor; assumes the code uses random words only via threshold comparison and low bits (asserted by differential outcomes)."),
+   note="RNG injected through an overlay-added constructor; the order of the halving pass is chosen by the harness through a one-line source transformation; which bits of a random word matter is probed, and the threshold use of the keep test is verified - otherwise the configuration is reported exhaustive:false instead of judged."),
  "C20": dict(engine="E4", ref="8/C20",
    technique="bounded-exhaustive enumeration of byte slices at all alignments with guard bytes; all strings/cut points; full transitivity cube",
    text="Every length/alignment/zero-pattern for mbits with both guard values; every string over mixed-width runes and every cut for Trunc; all triples for CompareNatural.",
